@@ -643,6 +643,52 @@ def ob_env_setters(run, mir, rp, fam):
     run.samples.append({"obligation": ob.id, "paths": n})
 
 
+def ob_class_field_scope(run, mir, rp, fam):
+    ob = run.ob("class-fields-not-in-method-scope", "E2", "constrain_class_body: the statements of a class body are not all generated in ONE carried environment - a field "
+                "defined at class level may be visible to the initialisers of later fields, but not as a bare name inside a method body (in the emitted Python a class "
+                "attribute is only reachable through self / the class: a bare name is a NameError, or silently a global of the same name)",
+                ["constrain_class_body"])
+    fn = e2.find1(mir, file=ckern.GEN + "class.rs", name="constrain_class_body")
+    ex = Exec(mir, max_paths=5000, inline=[ckern.ENV_SETTERS])
+    st = State()
+    stmts = opq("statements", "&[AST]")
+    ty, _ = ckern.mk_ast("ty", opq("ty.node", "Node"))
+    env, _ev = ckern.sym_env(ex, st)
+    ctx, constr = ckern.refs(ex, st, "ctx", "constr")
+    ends = e2.run_kernel(run, ex, fn, [stmts, Ref(ex.new_cell(st, ty)), env, ctx, constr], st)
+    claims, n = [], 0
+    sv = ex.to_val(st, stmts)
+    for p in ends:
+        if result_kind(p) != "Ok":
+            continue
+        n += 1
+        whole = [g for g in calls(p, "gen_vec") if z3.eq(g["argvals"][0], sv)]
+        carried = [g for g in whole if not (z3.is_expr(g["args"][2]) and z3.is_false(z3.simplify(g["args"][2])))]
+        claims.append(z3.Implies(conj(p.cond), z3.BoolVal(not carried)))
+    if not n:
+        raise Unsupported("no Ok path")
+    f = e2.Family(rp)
+    f.add("bare-field-in-method", "class A\n    def v: Int := 1\n    def m(self) -> Int => v", "reject")
+    f.add("bare-field-shadows-global-in-method", "def v := \"g\"\nclass A\n    def v: Int := 1\n    def m(self) -> Int => v", "reject")
+    f.add("field-through-self-in-method", "class A\n    def v: Int := 1\n    def m(self) -> Int => self.v", "accept")
+    f.add("global-in-method", "def g := 2\nclass A\n    def v: Int := 1\n    def m(self) -> Int => g", "accept")
+
+    def replay(model):
+        k_, bad = f.run()
+        if bad:
+            roles = sorted(b["role"] for b in bad)
+            return {"reproduced": True, "role": "class-field-visible-in-methods:" + "+".join(roles), "failing_programs": roles,
+                    "detail": f"program {bad[0]['src']!r}: expected {bad[0]['expected']}, real verdict {bad[0]['got']}"}
+        return {"reproduced": False, "detail": f"all {k_} programs behave as required"}
+    e2.prove(run, ob, ex, [], conj(claims), {}, replay)
+    if ob.status == "discharged":
+        r_ = replay({})
+        run.validated += len(f.items)
+        if r_["reproduced"]:
+            ob.status = "pending"
+            ob.inconclusive("family disagrees although the kernel is as specified: " + r_["detail"])
+
+
 def run(run):
     mir = e2.load_mir(run)
     rp = common.Replay()
@@ -652,7 +698,7 @@ def run(run):
                "outside: forward references between top-level definitions, comprehension variables, class scopes, match arms (constrain_cases loop)")
     run.trusted += ["rustc nightly MIR dump", "mirsym MIR semantics", "z3"]
     run.bounds = {"paths": "all paths, loops cut at headers"}
-    for f in (ob_lookup, ob_sequencing, ob_flow, ob_comprehension, ob_env_ops, ob_env_setters, ob_self_field, ob_assigned_detection):
+    for f in (ob_lookup, ob_sequencing, ob_flow, ob_comprehension, ob_env_ops, ob_env_setters, ob_class_field_scope, ob_self_field, ob_assigned_detection):
         try:
             f(run, mir, rp, fam)
         except Unsupported as e:
